@@ -113,7 +113,7 @@ def ht_units(order, kind, tier):
                 # its body is replaced by assert(false) so that reaching it fails an obligation
                 c2["goto_instrument_args"] = ["--remove-function-body", "find_closer_entry_VT", "--generate-function-body", "find_closer_entry_VT",
                                               "--generate-function-body-options", "assert-false-assume-false"]
-            unit("ht.%s.%s.%d" % (op, sfx, i + 1), ["C17"], "units/ht.c", entry="h_ht_" + op,
+            unit("ht.%s.%s.%d" % (op, sfx, i + 1), ["C17", "C04", "C03", "C01"], "units/ht.c", entry="h_ht_" + op,
                  functions=["%s_<name> (order %d, %s keys)" % (fn, order, kind)], expect_tags=[tag], timeout=600, **c2)
 
 
@@ -203,6 +203,9 @@ unit("bs.read_until", ["C09"], "units/bs.c", entry="h_bs_read_until", functions=
 # ------------------------------------------------------------------------------------------
 # C02 JSON-RPC discipline (response.c, parse.c)
 # ------------------------------------------------------------------------------------------
+# the model's Delete/Duplicate chains: siblings per level are few in every unit; a tight per-loop bound keeps the
+# nested unrolling small (unwinding assertions still check it)
+CJ_UNWIND = ["cj_delete_0.0:4", "cj_delete_1.0:4", "cj_delete_2.0:5", "cj_delete_3.0:5", "cj_dup_0.0:4", "cj_dup_1.0:4", "cj_dup_2.0:4"]
 CJ_ASSUME = ["cJSON: executable model stubs/cjson_model.h (assumed contract of the vendored library)"]
 for _h, _fns in (("error", ["create_error_response", "create_error_object", "create_common_response", "add_subobject_to_object"]),
                  ("result", ["create_result_response", "create_common_response"]),
@@ -214,6 +217,37 @@ for _h, _fns in (("error", ["create_error_response", "create_error_object", "cre
          defines=["RESP_FAIL=1"], tier="thorough", kind="proof", bound="as resp.%s; every subset of allocations fails" % _h,
          flags=["--memory-leak-check"], timeout=300, assumes=CJ_ASSUME)
 
+unit("rpc.dispatch", ["C02", "C06"], "units/u_rpc.c", entry="h_rpc_dispatch", functions=["parse_json_rpc", "handle_method", "send_response", "process_fetch"], unwind=16, cbmc_unwindset=CJ_UNWIND, solver="cadical",
+     kind="proof", bound="every combination of method (12 names, unknown, non-string) / id / result / error members",
+     expect_tags=["C02.dispatch.exactly-one-handler-per-request-object", "C02.dispatch.each-built-response-is-sent-exactly-once", "C02.dispatch.incoming-result-is-routed-never-answered"],
+     flags=["--memory-leak-check"], goto_instrument_args=["--restrict-function-pointer", "send_response.function_pointer_call.1/stub_send"], timeout=600,
+     assumes=CJ_ASSUME + ["handlers and router: recording stubs returning NULL or a fresh response", "send_message: returns 0 or -1"])
+unit("rpc.batch", ["C02", "C06"], "units/u_rpc.c", entry="h_rpc_batch", functions=["parse_json_array", "parse_json_rpc"], unwind=16, cbmc_unwindset=CJ_UNWIND, solver="cadical",
+     kind="proof", bound="batches of <= 2 members (thorough: 3)", defines_thorough=["RPC_BATCH_MAX=3"],
+     expect_tags=["C02.batch.members-processed-in-order", "C02.batch.members-processed-until-the-first-non-object"],
+     goto_instrument_args=["--restrict-function-pointer", "send_response.function_pointer_call.1/stub_send"], timeout=600, assumes=CJ_ASSUME)
+
+# ------------------------------------------------------------------------------------------
+# C04 element namespace / C03 routing entry / C01 event order (element.c handlers)
+# ------------------------------------------------------------------------------------------
+EL_COMMON = dict(unwind=14, cbmc_unwindset=CJ_UNWIND, solver="cadical", kind="proof", flags=["--memory-leak-check"], timeout=600,
+                 bound="paths of 1-2 characters, <= 2 existing elements on 2 peers, every member shape of params (path/value/fetchOnly/access/timeout/args/id)",
+                 goto_instrument_args=["--value-set-fi-fp-removal"],
+                 assumes=CJ_ASSUME + ["path index = ghost finite map (C17 contract)", "fetch.c notify/find, router.c alloc/create/setup, response builders, get_timeout_in_nsec: recording stubs with their contracts"])
+for _sh, _nm in ((0, "none"), (1, "p"), (2 | 8, "pq")):
+    unit("el.add." + _nm, ["C04", "C01", "C08", "C14", "C02", "C06"], "units/u_element.c", entry="h_el_add", defines=["EL_SHAPE=%d" % _sh],
+         functions=["add_element_to_peer", "init_element", "alloc_element", "fill_access", "get_path_from_params", "get_fetch_only_from_params"],
+         expect_tags=["C04.add.refused-request-changes-nothing", "C04.add.new-element-indexed-under-its-path-owned-by-the-requester"], **EL_COMMON)
+EL_SHAPES = [(0, "none"), (1, "p"), (1 | 4, "q"), (2, "pp"), (2 | 4, "qp"), (2 | 8, "pq"), (2 | 12, "qq")]
+for _sh, _nm in EL_SHAPES:
+    if _sh != 0:
+        unit("el.change." + _nm, ["C04", "C01", "C02", "C06"], "units/u_element.c", entry="h_el_change", functions=["change_state"], defines=["EL_SHAPE=%d" % _sh],
+             expect_tags=["C04.change.refused-request-changes-nothing"], **EL_COMMON)
+    unit("el.remove." + _nm, ["C04", "C01", "C02", "C06"], "units/u_element.c", entry="h_el_remove", functions=["remove_element_from_peer", "remove_element", "free_element"], defines=["EL_SHAPE=%d" % _sh],
+         expect_tags=["C04.remove.refused-request-changes-nothing"], **EL_COMMON)
+unit("el.setcall", ["C04", "C03", "C08", "C14", "C02", "C06"], "units/u_element.c", entry="h_el_setcall", functions=["set_or_call", "element_is_fetch_only"],
+     expect_tags=["C04.setcall.refused-for-unknown-path-fetch-only-wrong-type-or-missing-group-before-anything-is-routed", "C03.route.delivered-once-to-the-owner-only"], **EL_COMMON)
+
 # ------------------------------------------------------------------------------------------
 # C08 access control (peer.c, groups.c, authenticate.c, linux_io.c)
 # ------------------------------------------------------------------------------------------
@@ -222,11 +256,15 @@ unit("peer.init", ["C08", "C06"], "units/u_peer.c", entry="h_peer_init", functio
 unit("peer.log", ["C06"], "units/u_peer.c", entry="h_peer_log", functions=["log_peer_err", "log_peer_info", "get_peer_name"], unwind=4, solver="cadical",
      expect_tags=["C06.log.size-fits-remaining-buffer"], timeout=120,
      assumes=["snprintf/vsnprintf: write at most `size` bytes, return the would-be length (any value >= 0)"])
+unit("auth.handle", ["C08", "C07", "C06"], "units/u_auth.c", entry="h_auth_handle", functions=["handle_authentication", "get_params"], unwind=14, solver="cadical",
+     kind="proof", bound="every member shape of params (missing / mistyped user and password), every subset of the user's group lists, allocation of the user name may fail",
+     flags=["--memory-leak-check"], expect_tags=["C08.auth.failed-authentication-changes-nothing", "C08.auth.success-assigns-exactly-the-users-groups", "C08.auth.password-never-appears-in-a-response"], timeout=300,
+     assumes=CJ_ASSUME + ["credentials_ok / get_groups / response builders: stubs; password flow is tracked at pointer level only (copies are not tracked)"])
 unit("grp.bits", ["C08", "C06"], "units/u_groups.c", entry="h_grp_bits", functions=["get_groups", "has_access"], unwind=8, solver="cadical",
-     kind="proof", bound="up to 4 registered groups, up to 2 listed groups, one-character names",
+     kind="proof", bound="up to 4 registered groups, up to 2 listed groups, names of 1 or 2 characters",
      expect_tags=["C08.grp.bit-j-set-iff-a-listed-name-equals-registered-group-j", "C08.grp.access-is-non-empty-intersection"], timeout=300, assumes=CJ_ASSUME)
 unit("grp.bits.32", ["C08", "C06"], "units/u_groups.c", entry="h_grp_bits", functions=["get_groups"], unwind=34, solver="cadical",
-     defines=["G_MAX=32", "G_FULL=1"], kind="proof", bound="exactly 32 registered groups (the maximum), one listed group",
+     defines=["G_MAX=32", "G_FULL=1"], kind="proof", bound="exactly 32 registered groups (the maximum), one listed group, names of 1 or 2 characters",
      expect_tags=["C08.grp.bit-j-set-iff-a-listed-name-equals-registered-group-j"], timeout=900, assumes=CJ_ASSUME)
 
 # ------------------------------------------------------------------------------------------
@@ -322,6 +360,16 @@ unit("loop.batch", ["C14", "C09", "C06"], "units/u_loop.c", entry="h_loop_batch"
      expect_tags=["C14.batch.dispatched-event-is-still-registered", "C09.batch.every-readable-event-of-the-batch-is-read-once"], timeout=300,
      replay={"c": "replay/loop_replay.c", "extract": "loop_extract"},
      assumes=["callbacks: any callback may deregister any subset of the registered events, returns EL_EVENT_REMOVED iff it removed its own"])
+
+unit("timer.lifecycle", ["C07", "C14", "C06"], "units/u_timerlinux.c", entry="h_timer_lifecycle",
+     functions=["cjet_timer_init", "cjet_timer_destroy", "timer_start", "timer_cancel", "timer_read", "convert_timeoutns_to_itimerspec"], unwind=4, solver="cadical",
+     expect_tags=["C07.timer.destroy-deregisters-and-closes-its-descriptor-once", "C14.timer.deadline-of-5s-armed-as-5s"], timeout=300,
+     goto_instrument_args=["--value-set-fi-fp-removal"],
+     assumes=["timerfd_create / timerfd_settime / close: assumed OS contracts (any descriptor or -1; 0 or -1)", "event loop add/remove: recording stubs that require the loop's this_ptr"])
+
+unit("timer.spec", ["C14"], "units/u_timerlinux.c", entry="h_timer_lifecycle", functions=["convert_timeoutns_to_itimerspec"], unwind=4, solver="cadical", tier="thorough",
+     defines=["TIMER_SPEC=1"], expect_tags=["C14.timer.deadline-is-exactly-the-requested-nanoseconds"], timeout=1800, goto_instrument_args=["--value-set-fi-fp-removal"],
+     assumes=["64-bit division by 10^9: may not finish (then undecided)"])
 
 PROPERTY_META["C14"] = {
     "level": "proof",
